@@ -78,7 +78,7 @@ def quiesce(w, extra='1/2'):
 
 # --------------------------------------------------------------------------- CAs in every claim state
 CA_STATES = ('not_started', 'wait_veto', 'normal_veto', 'normal_immediate', 'lost_waiting', 'moved', 'moved_lost_waiting',
-             'moved_twice', 'cannot_claim', 'bypassed')
+             'moved_twice', 'cannot_claim', 'bypassed', 'bypassed_lost_waiting', 'bypassed_moved', 'bypassed_cannot', 'bypassed_unstarted_lost')
 
 
 def make_ca(w, node, state, addr, ident, aac=None, ex=None):
@@ -90,11 +90,29 @@ def make_ca(w, node, state, addr, ident, aac=None, ex=None):
     if aac is None:
         aac = state in ('moved', 'lost_waiting', 'moved_lost_waiting', 'moved_twice')
     name = j1939.Name(arbitrary_address_capable=1 if aac else 0, industry_group=2, function=130, manufacturer_code=700, identity_number=ident)
-    if state == 'bypassed':
+    if state.startswith('bypassed'):
+        # 'bypassed'                : claiming bypassed, operational on its preferred address at once
+        # 'bypassed_lost_waiting'   : bypassed + started, arbitrary address capable, then loses the address: waits for the next one
+        # 'bypassed_moved'          : ... and is operational on the next address after the veto time
+        # 'bypassed_cannot'         : bypassed + started, fixed address, loses it: cannot claim
+        # 'bypassed_unstarted_lost' : bypassed, never started (no claim timer), loses the address
+        if aac is None or state != 'bypassed':
+            aac = state in ('bypassed_lost_waiting', 'bypassed_moved', 'bypassed_unstarted_lost')
+        name = j1939.Name(arbitrary_address_capable=1 if aac else 0, industry_group=2, function=130, manufacturer_code=700, identity_number=ident)
         ca = j1939.ControllerApplication(name, addr, bypass_address_claim=True)
         node.ecu.add_ca(controller_application=ca)
         node.cas.append(ca)
-        return ca, addr
+        if state == 'bypassed':
+            return ca, addr
+        if state != 'bypassed_unstarted_lost':
+            ca.start(0.01)
+            w.run(until=w.now + T('4/10'))
+        low = j1939.Name(arbitrary_address_capable=0, identity_number=1).value
+        w.inject(node, (6 << 26) | (0xEE << 16) | (0xFF << 8) | addr, ids.name_bytes(low))
+        if state == 'bypassed_moved':
+            w.run(until=w.now + T('7/10'))
+            return ca, addr + 1
+        return ca, None
     ca = j1939.ControllerApplication(name, addr)
     node.ecu.add_ca(controller_application=ca)
     node.cas.append(ca)
